@@ -135,7 +135,7 @@ Proof.
     + exists (next_id s). apply subseq_refl.
     + exists 0%nat. constructor.
   - destruct (is_open s) eqn:Eo; [exact HI|]. destruct HI as [I1 I2]. unfold prepare. split; cbn [is_open resting snap next_id]; [exact I1|].
-    rewrite (I1 Eo). destruct (decl s); [exists 0%nat; constructor|reflexivity].
+    rewrite (I1 Eo). destruct (decl s); [exists 0%nat; apply ss_nil|]. destruct (snap s); [exists 0%nat; apply ss_nil|reflexivity].
 Qed.
 
 Theorem exits_invariant ops : XInv (fold_left xstep ops xinit).
